@@ -129,13 +129,25 @@ CLAIMS = [
         "level_note": "NOT decided: completeness (well-typed programs are accepted), the exact diagnostic, inference, expected-type "
                       "preparation. The rules are necessary conditions; they do not prove the typing rules.",
     },
+    {
+        "id": "C07",
+        "technique": "static analysis: flow-sensitive symbolic scope traces of every resolver arm against an audited table; generic traversal-completeness rule (typed HIR); type facts of the program builder",
+        "level_text": "Decides the per-former scoping rules that make renaming invariance hold: for all 38 term and 9 pattern formers, each child "
+                      "is resolved in the audited scope (inherited / after its binder / threaded / empty at source and signature boundaries), "
+                      "`that` forms need an enclosing block, block names are installed by explicit updates over the inherited map; the "
+                      "candidate collector, resolver, DeepClone and program builder visit every TermId/PatId child they bind (299 "
+                      "obligations), the collector stops exactly at Block/SourceBoundary/SignatureBoundary, and the program builder "
+                      "allocates a fresh copy per import occurrence and has no cache.",
+        "level_note": "NOT decided: the theorem that these rules imply alpha-invariance of behaviour. The scope table encodes my reading of the "
+                      "language's scoping rules and alarms on any semantic edit of a resolver arm.",
+    },
 ]
 
 _PENDING = "check not built yet in this round (static rule designed in DESIGN.md, implementation pending)"
 NOT_APPLICABLE = [
     {"property_id": "C20", "reason": "behavioural equation through a 2800-line type-directed translation; no clause is both visible in the shape of elaborate/monadic/* and a necessary condition of the equation (DESIGN.md C20)"},
 ] + [{"property_id": p, "reason": _PENDING} for p in
-     ["C04", "C07", "C08", "C09", "C12", "C13", "C14", "C18", "C19"]]
+     ["C04", "C08", "C09", "C12", "C13", "C14", "C18", "C19"]]
 
 NOTES = ("Static analysis only: every verdict is computed from /repo's current working tree by the zyq rustc driver "
          "(facts) and repository-specific rules; nothing executes zydeco. Exit 2 (no VIOLATION line) means the tree could not "
